@@ -4,6 +4,7 @@ import (
 	"fmt"
 	"go/token"
 	"go/types"
+	"reflect"
 	"sort"
 	"strings"
 
@@ -102,6 +103,48 @@ func runC12(w *World, r *Report) {
 		skip, wit := pathQuery{fn: im, goal: func(i ssa.Instruction) bool { return i == ssa.Instruction(ret) }, avoid: isDiscStore}.exists()
 		r.Check(!skip, "C12.kind-siblings", fmt.Sprintf("internalMarshal success return #%d sets a discriminator", nSucc), ret.Pos(), "one of Type/StructType/MapKeyType/SliceValueType is stored on every path", "a value is encoded without a kind discriminator: the decoder takes the slice fall-through: "+wit)
 	})
+	// each kind arm of the encoder's switch writes ITS discriminator: struct -> StructType, map -> MapKeyType,
+	// slice/array -> SliceValueType; Type (+ json) is for leaves only. A struct encoded as one json document obeys
+	// json tags (json:"-", renamed / duplicate names) and silently loses fields the field-by-field form keeps.
+	{
+		want := map[int64]string{int64(reflect.Struct): "StructType", int64(reflect.Map): "MapKeyType", int64(reflect.Slice): "SliceValueType", int64(reflect.Array): "SliceValueType"}
+		kindName := map[int64]string{int64(reflect.Struct): "struct", int64(reflect.Map): "map", int64(reflect.Slice): "slice", int64(reflect.Array): "array"}
+		seenArm := map[int64]bool{}
+		instrs(im, func(in ssa.Instruction) {
+			st, ok := in.(*ssa.Store)
+			if !ok || !isDiscStore(in) {
+				return
+			}
+			name := fieldVarOfAddr(st.Addr.(*ssa.FieldAddr)).Name()
+			for _, g := range guardsOf(st.Block()) {
+				op, x, y, ok := asCmp(g.cond)
+				if !ok || op != token.EQL || !g.pol {
+					continue
+				}
+				c, ok := x.(*ssa.Call)
+				if !ok || !strings.HasSuffix(calleeFullName(c), ".Kind") {
+					continue
+				}
+				k, ok := constInt(y)
+				if !ok {
+					continue
+				}
+				exp, known := want[k]
+				if !known {
+					continue
+				}
+				seenArm[k] = true
+				r.Check(name == exp, "C12.kind-siblings", fmt.Sprintf("internalMarshal %s arm writes discriminator %s", kindName[k], name), st.Pos(), "the arm's own discriminator", fmt.Sprintf("the %s arm of the encoder marks a value as %s instead of %s: it is stored in another representation than the decoder's %s arm restores (a struct written as one json document drops json:\"-\" / duplicate-name fields without an error)", kindName[k], name, exp, kindName[k]))
+			}
+		})
+		for k, n := range kindName {
+			// `case reflect.Slice, reflect.Array` is a disjunction (no single dominating guard): its discriminator is
+			// covered by the "every success return sets a discriminator" clause above
+			if !seenArm[k] && (k == int64(reflect.Struct) || k == int64(reflect.Map)) {
+				r.Fail("C12.kind-siblings", "internalMarshal "+n+" arm writes its discriminator", im.Pos(), "no discriminator store found under Kind() == "+n)
+			}
+		}
+	}
 	if nSucc < 5 {
 		r.Fail("C12.kind-siblings", "internalMarshal success returns", im.Pos(), fmt.Sprintf("%d success returns (want nil-input, nil-pointer, struct, map, slice, basic)", nSucc))
 	}
